@@ -250,6 +250,10 @@ def run(ctx):
     else:
         chk.ok(R2, rp.qualname, f'{nstaging} staging path(s)', detail='each transfers the bytes exactly once: raw copy iff flags equal or destination uncompressed, deflate + flush iff destination compressed')
 
+    # read side of the same agreement: at every packed-reader construction site the decompresser wraps the reader iff the truthiness of the row's flag
+    from .c01 import reader_wrap_sites
+    reader_wrap_sites(ctx, chk, R2)
+
     # ---------------------------------------------------------------- R3
     ec = prog.fn('utils:estimate_compression')
     g = ctx.icfg(ec.qualname, {}, Policy(depth=0), key='d0')
